@@ -360,6 +360,14 @@ func (c *Client) push(e *Event) {
 	c.mu.Unlock()
 }
 
+// SetReadBuffer shrinks the socket's receive buffer (a client that stops
+// reading then jams the server's send path after a few kilobytes).
+func (c *Client) SetReadBuffer(n int) {
+	if t, ok := c.nc.(*net.TCPConn); ok {
+		t.SetReadBuffer(n)
+	}
+}
+
 // LogCopy returns everything the connection has received so far.
 func (c *Client) LogCopy() []*Event {
 	c.mu.Lock()
